@@ -198,7 +198,11 @@ func (g *Gen) genC08() {
 		default: // near misses
 			base := []string{"INVITE", "sip:a@b", "SIP/2.0"}
 			rep := []string{"SIP/2.0", "200", "OK"}
-			switch r.N(12) {
+			switch r.N(14) {
+			case 12, 13: // status code of three bytes one of which is not a digit (bytes next to '0'..'9', letters)
+				d := []byte(fmt.Sprintf("%03d", r.N(1000)))
+				d[r.N(3)] = "/:aAzZ;.-+ "[r.N(11)]
+				line = rep[0] + " " + string(d) + " " + rep[2] + eol
 			case 0:
 				line = base[0] + "  " + base[1] + " " + base[2] + eol
 			case 1:
